@@ -112,6 +112,35 @@ func runReader(input string, allc bool) obs {
 	return o
 }
 
+// runWrapper reads the same input through Globals.ReadMultiline, the method every consumer of the reader calls
+// (fast.Interp.Read / EvalReader / EvalFile, cmd -m -w, the classic interpreter, the debugger), driven exactly like
+// EvalReader + ReadParseEvalPrint: the loop ends when "" / -1 comes back.  The method drops the reader's error value:
+// the chunk that arrives together with io.EOF (last line without final newline) must still be delivered.
+func runWrapper(g *base.Globals, input string, allc bool) (chunks []chunk, panicked interface{}, runaway bool) {
+	save := g.Readline
+	defer func() { g.Readline = save }()
+	g.Readline = base.MakeBufReadline(bufio.NewReader(strings.NewReader(input)))
+	panicked = vh.Catch(func() {
+		var opts base.ReadOptions
+		if allc {
+			opts = base.ReadOptCollectAllComments
+		}
+		for k := 0; ; k++ {
+			if k > len(input)+4 {
+				runaway = true
+				return
+			}
+			src, ft := g.ReadMultiline(opts, "")
+			opts = 0
+			if len(src) == 0 && ft < 0 {
+				return
+			}
+			chunks = append(chunks, chunk{src, ft, ""})
+		}
+	})
+	return
+}
+
 // ---------------------------------------------------------------- go/scanner view of a text
 
 type tok struct {
@@ -239,6 +268,7 @@ type env struct {
 	idx   int
 	extra map[string]int
 	known map[string]bool // keys of status "known" entries of known_findings.json
+	gw    *base.Globals   // Globals whose ReadMultiline method (the wrapper used by all consumers) reads every input once more
 	// correspondence cases with long lines go to a shard of their own (cost is per byte, not per case)
 	toLong    bool
 	longCases []string
@@ -334,6 +364,45 @@ func (e *env) check(kind, name, input string, allc, toCoq, wantParse bool) {
 		return
 	}
 	_ = otherErr // (already reported; the chunks are still judged by O2-O5: an error does not excuse a cut inside a literal)
+	// ---- O1 once more, on what the consumers of the reader receive (Globals.ReadMultiline)
+	if len(o.rlErrs) == 0 {
+		if e.gw == nil {
+			e.gw = base.NewGlobals()
+			e.gw.Stderr, e.gw.Stdout = io.Discard, io.Discard
+		}
+		wc, wpanic, wrun := runWrapper(e.gw, input, allc)
+		var wb strings.Builder
+		for _, c := range wc {
+			wb.WriteString(c.Src)
+		}
+		switch {
+		case wpanic != nil:
+			fail("Globals.ReadMultiline panicked", fmt.Sprint(wpanic), nil)
+		case wrun:
+			fail("reader loop over Globals.ReadMultiline does not end", nil, nil)
+		case wb.String() != string(out):
+			lost := ""
+			if strings.HasPrefix(string(out), wb.String()) {
+				lost = string(out[len(wb.String()):])
+			}
+			fail("O1 concatenation of the chunks delivered by Globals.ReadMultiline (the reader as EvalReader / EvalFile / the REPL call it) != input: source text is lost",
+				map[string]interface{}{"chunks_from_Globals.ReadMultiline": len(wc), "chunks_from_base.ReadMultiline": len(o.chunks), "lost_text": short(lost), "last_byte_is_newline": strings.HasSuffix(input, "\n")}, short(string(out)))
+		default:
+			for i := range wc {
+				if i >= len(o.chunks) || wc[i].Src != o.chunks[i].Src || wc[i].First != o.chunks[i].First {
+					fail("Globals.ReadMultiline delivers other chunks / firstToken offsets than base.ReadMultiline on the same input", map[string]interface{}{"chunk": i, "got": short(wc[i].Src), "first": wc[i].First}, nil)
+					break
+				}
+			}
+		}
+		e.extra["inputs_also_read_through_Globals.ReadMultiline"]++
+		if !strings.HasSuffix(input, "\n") && len(input) > 0 {
+			e.rep.Dist("last-byte-not-newline")
+			if n := len(o.chunks); n > 0 && o.chunks[n-1].First >= 0 {
+				e.rep.Dist("last-byte-not-newline:final-chunk-has-tokens")
+			}
+		}
+	}
 	sc := scanText(out)
 	for _, k := range rw {
 		okStart := false
@@ -643,6 +712,8 @@ func main() {
 		"plus sequences mixing 8 non-Go templates (#!, ~quote, unterminated literals, '#', U+2029, missing final newline) for the lossless and correspondence checks only; "+
 		"(2b) one physical line of exactly 4095, 4096, 4097, 8192, 8193, ~6000, ~12000 and ~65537 bytes (thorough: 32 more lengths up to 131073) of each of 12 kinds (string, raw string, rune list, line comment, block comment, composite literal, call, binary operators, statements, identifier, trailing blanks, nested literals), alone, between template lines and twice in a row; "+
 		"(3) files of $GOROOT/src (quick: 300 sampled; thorough: all, testdata/vendor excluded) and line-boundary prefixes (<= 2.5 KB) of a sample of them for the Coq side. "+
+		"Every sequence of length <= 2, 1/5 of the sampled sequences and 1/4 of the stdlib files are ALSO read with the final newline removed (last statement complete but unterminated: the reader returns the last chunk together with io.EOF). "+
+		"Every input is read twice: through base.ReadMultiline (all oracles) and through the method Globals.ReadMultiline that EvalReader/EvalFile/REPL/debugger call (driven like EvalReader; its chunks must concatenate to the input and equal the first reading). "+
 		"First call with ReadOptCollectAllComments (as EvalReader) and, for template sequences, also without (as Repl). "+
 		"A case is non-trivial when the reader returned >= 2 chunks; distinct by SHA-256 of (option, input)")
 	e := &env{a: a, rep: rep, wd: vh.NewWatchdog(rep, 20*time.Second), g: base.NewGlobals(), extra: map[string]int{}}
@@ -711,6 +782,10 @@ func main() {
 			e.check("seq", seqName(ix), in, true, toCoq, true)
 			if len(ix) <= 2 {
 				e.check("seq-repl", seqName(ix), in, false, len(ix) == 1 || rng.Chance(1, 12), true)
+				// the same text as a file whose last byte is not a newline (last statement complete but unterminated)
+				if t := strings.TrimSuffix(in, "\n"); t != in && t != "" {
+					e.check("seq-nonl", seqName(ix), t, len(ix) == 1 || rng.Chance(1, 2), len(ix) == 1 || rng.Chance(1, 12), true)
+				}
 			}
 			nExh++
 		}
@@ -737,7 +812,11 @@ func main() {
 		if !allc {
 			kind = "seq-repl"
 		}
-		e.check(kind, seqName(ix), build(ix, templates), allc, k%coqEvery == 0, true)
+		in := build(ix, templates)
+		if t := strings.TrimSuffix(in, "\n"); k%5 == 4 && t != in {
+			in, kind = t, "seq-nonl" // last byte is not a newline
+		}
+		e.check(kind, seqName(ix), in, allc, k%coqEvery == 0, true)
 	}
 	// sequences mixing in the non-Go templates
 	all := append(append([]string(nil), templates...), templatesExt...)
@@ -849,6 +928,9 @@ func main() {
 		e.g = base.NewGlobals() // fresh file set
 		e.g.Stderr, e.g.Stdout = io.Discard, io.Discard
 		e.check("stdlib", rel, string(b), true, false, true)
+		if t := bytes.TrimRight(b, "\n"); rng.Chance(1, 4) && len(t) > 0 {
+			e.check("stdlib-nonl", rel, string(t), true, false, true) // the file without its final newline
+		}
 		if coqLeft > 0 && len(b) < 6000 {
 			pre := b
 			if len(pre) > 2500 {
